@@ -550,3 +550,59 @@ Fixpoint sync_diff (all mx : bool) (s : sstate) (evs : list (sync_ev * snapshot)
       | Ok s' => if ssnap_ok s' sn then sync_diff all mx s' rest (i + 1) else i
       end
   end.
+
+(* ------------------------------------------------------------------ *)
+(* from the searcher state to the data the surrogate model is fitted to *)
+(*   bayesopt/models/subsample_state_{single,multi}_fidelity.py         *)
+(*       cap_size_tuning_job_state / Subsample...StateConverter         *)
+(*   bayesopt/datatypes/tuning_job_state.py  TuningJobState.__init__     *)
+(*       (_check_trial_ids), observed_data_for_metric                    *)
+(* ------------------------------------------------------------------ *)
+(* trials mentioned by a state *)
+Definition state_trials (s : sstate) : list Z :=
+  map (fun e => fst (fst e)) (obs s) ++ map fst (pend s) ++ failed s.
+(* TuningJobState._check_trial_ids: every observed / failed / pending trial has an entry in config_for_trial
+   ([cfg] = the keys of config_for_trial) *)
+Definition check_trial_ids (cfg : list Z) (s : sstate) : bool := forallb (fun t => mem_Z t cfg) (state_trials s).
+
+Section FittedData.
+(* the random down-sampling: WHICH [cap] observations survive is the choice of the converter (random_state
+   draws, preference for trials with data at high levels): an arbitrary function the theorems quantify over *)
+Variable choose : list ((Z * Z) * Q) -> nat -> list ((Z * Z) * Q).
+
+(* cap_size_tuning_job_state: observations replaced by a subset when there are more than [cap]; config_for_trial,
+   failed_trials and pending_evaluations are copied; the new TuningJobState is checked by its constructor *)
+Definition cap_state (cap : nat) (cfg : list Z) (s : sstate) : option (list Z * sstate) :=
+  let s' := {| obs := if Nat.leb (length (obs s)) cap then obs s else choose (obs s) cap;
+               pend := pend s; failed := failed s |} in
+  if check_trial_ids cfg s' then Some (cfg, s') else None.     (* None = AssertionError of the constructor *)
+
+(* observed_data_for_metric: one row (configuration of the trial extended by the level, value) per
+   observation; [config_of] maps a trial to (an identifier of) its configuration and need not be injective *)
+Definition fitted_rows {C : Type} (config_of : Z -> C) (s : sstate) : list (C * Z * Q) :=
+  map (fun e => (config_of (fst (fst e)), snd (fst e), snd e)) (obs s).
+End FittedData.
+
+(* ------------------------------------------------------------------ *)
+(* which configurations a searcher must not propose                     *)
+(*   TuningJobState.all_configurations (ExclusionListFromState),         *)
+(*   ModelBasedSearcher._get_exclusion_candidates(skip_observed),        *)
+(*   StochasticAndFilterDuplicatesSearcher                               *)
+(*       ._get_random_config_from_restrict_configurations                *)
+(* ------------------------------------------------------------------ *)
+Definition observed_trials (s : sstate) : list Z := map (fun e => fst (fst e)) (obs s).
+(* trials whose configurations form the exclusion list; [skip_observed] = allow_duplicates=True in the
+   model-based phase (observed configurations may be proposed again, pending and failed ones may not) *)
+Definition exclusion_trials (skip_observed : bool) (s : sstate) : list Z :=
+  map fst (pend s) ++ failed s ++ (if skip_observed then [] else observed_trials s).
+
+(* draws positions in restrict_configurations until one is not excluded ([draws] = the random positions) *)
+Fixpoint draw_restricted {C : Type} (eqb : C -> C -> bool) (rc excl : list C) (draws : list nat) : option C :=
+  match draws with
+  | [] => None
+  | pos :: rest =>
+      match nth_error rc pos with
+      | Some c => if existsb (eqb c) excl then draw_restricted eqb rc excl rest else Some c
+      | None => draw_restricted eqb rc excl rest
+      end
+  end.
